@@ -2,6 +2,7 @@ package main
 
 import (
 	"fmt"
+	"reflect"
 	"go/token"
 	"go/types"
 	"os"
@@ -351,6 +352,28 @@ func (e *Engine) verifyFunctionCase(fn *ssa.Function, ct *Contract, mode Mode, s
 			args[idx] = VInt{Int64C(int64(sel.val))}
 		}
 	}
+	e.leafClass = nil
+	if ct.Flags["root"] && fn.Signature.Recv() != nil {
+		// gnark circuit root: classify the leaves of the circuit struct by their gnark tags
+		rt := fn.Signature.Recv().Type()
+		if pt, ok := rt.(*types.Pointer); ok {
+			rt = pt.Elem()
+		}
+		if st, ok := rt.Underlying().(*types.Struct); ok {
+			pname := fn.Params[0].Name()
+			for i := 0; i < st.NumFields(); i++ {
+				tag := reflect.StructTag(st.Tag(i)).Get("gnark")
+				class := "secret"
+				switch {
+				case tag == "-":
+					class = "constant"
+				case strings.Contains(tag, "public"):
+					class = "public"
+				}
+				e.leafClass = append(e.leafClass, leafClass{prefix: funcKey(fn) + "." + pname + "." + st.Field(i).Name(), class: class})
+			}
+		}
+	}
 	e.curArgs = args
 	fr := e.newFrame(fn, args, nil)
 	fr.contract = ct
@@ -453,6 +476,9 @@ func (e *Engine) atReturn(s *State, f *Frame, res []Value, pos token.Pos) {
 		if !e.clauseApplies(cl) || cl.Tag == "deferred" {
 			continue
 		}
+		if cl.Props != nil && e.curProp != "" && !contains(cl.Props, e.curProp) {
+			continue
+		}
 		t := c.evalBool(cl.Expr)
 		site := fmt.Sprintf("%d", k)
 		if cl.Tag != "" {
@@ -464,7 +490,7 @@ func (e *Engine) atReturn(s *State, f *Frame, res []Value, pos token.Pos) {
 	if e.noCover {
 		return
 	}
-	cov := &Oblig{Name: fmt.Sprintf("%s/%s/cover@return", funcKey(e.curFn), e.mode), Func: funcKey(e.curFn), Mode: e.mode, Kind: "cover", Hyps: append([]*Term(nil), s.pc...), Expect: "sat", Props: ct.Props, Src: "normal return reachable"}
+	cov := &Oblig{Name: fmt.Sprintf("%s/%s/cover@return", funcKey(e.curFn), e.mode), Func: funcKey(e.curFn), Mode: e.mode, Kind: "cover", Hyps: s.coverHyps(), Expect: "sat", Props: ct.Props, Src: "normal return reachable"}
 	e.obligs = append(e.obligs, cov)
 }
 
